@@ -5,6 +5,7 @@ import Cherab.Lemmas.CachingAlg
 import Cherab.Lemmas.CachingInterp
 import Cherab.Lemmas.CachingMl3
 import Cherab.Lemmas.CachingEval
+import Cherab.Lemmas.CachingDenorm3
 import Mathlib.Algebra.Order.Ring.Rat
 
 /-!
@@ -16,18 +17,17 @@ clause of the property                         theorem(s)
 ---------------------------------------------  -----------------------------------------------------------------
 value does not depend on earlier evaluations   `memo_transparent`, `history_independent`, `cache_holds_function_values`,
                                                `calls_exact` (generic in the `Spec`, hence 1-D/2-D/3-D)
-equals the wrapped function at every node      `interpolates_nodes_1d/2d`, `interpolates_nodes_3d_partial`
-reproduces functions linear in each coordinate `reproduces_affine_1d`, `reproduces_multilinear_2d`, `…_3d_partial`
+equals the wrapped function at every node      `interpolates_nodes_1d/2d/3d`
+reproduces functions linear in each coordinate `reproduces_affine_1d`, `reproduces_multilinear_2d/3d`
 O(h²) approximation                            not proved (S only)
 outside: raise or call through                 `outside_policy`, `outside_area_1d`, `inside_area_is_cached`
-function bounds only rescale                   `normalisation_cancels_1d/2d`, `…_3d_partial`
+function bounds only rescale                   `normalisation_cancels_1d/2d/3d`, `denormalisation_1d/2d/3d`
 find_index                                     `find_index_spec`, `find_index_unique`, `node_grid_sorted`
 nonsingular constraint systems                 `system_nonsingular_1d/2d/3d`, `system_solvable_1d`
 
 External functions are parameters: `ExtOK E` says `powi = (^)` and "when `solve` returns, the vector satisfies every
-equation of the system" (numpy.linalg.solve, trusted).  The `_3d_partial` theorems additionally take the 3-D coordinate
-denormalisation identity `Denorm3` (a polynomial identity in 64 coefficients, checked bit-exactly by the correspondence
-run; its 1-D and 2-D instances `denorm1`, `denorm2` are proved).
+equation of the system" (numpy.linalg.solve, trusted; `ideal_solve_ok` shows the hypothesis is satisfiable, and
+`system_nonsingular_*` that it determines the coefficients).
 -/
 namespace Cherab.Props.C14
 set_option linter.unusedSectionVars false
@@ -271,5 +271,319 @@ theorem normalisation_cancels_1d (E : Ext α) (hE : ExtOK E) (ax : Axis α) (hax
       + u3 * ((p - ax.xmin) * ax.dinv) ^ 3
 
 end OneD
+
+/-! ## Caching2D -/
+section TwoD
+variable {α : Type} [Field α] [LinearOrder α] [IsStrictOrderedRing α]
+
+theorem interpolates_nodes_2d (E : Ext α) (hE : ExtOK E) (ax ay : Axis α) (hax : AxisOK ax) (hay : AxisOK ay)
+    (nm : Norm α) (hnm : NormOK nm) (f : α × α → α) (nbe : Bool) (i j : Nat)
+    (hi1 : 1 ≤ i) (hi2 : i + 2 ≤ ax.top) (hj1 : 1 ≤ j) (hj2 : j + 2 ≤ ay.top) (v : α)
+    (h : evalPure (spec2 E ax ay nm) (envOf f nm) nbe (ax.dom i, ay.dom j) = .val v) :
+    v = f (ax.dom i, ay.dom j) := by
+  have hcx : cellOf ax (ax.dom i) = some i :=
+    cellOf_of_bracket ax hax.sorted _ i hi1 hi2 le_rfl (hax.sorted i (i + 1) (by omega) (by omega))
+  have hcy : cellOf ay (ay.dom j) = some j :=
+    cellOf_of_bracket ay hay.sorted _ j hj1 hj2 le_rfl (hay.sorted j (j + 1) (by omega) (by omega))
+  have hc : cellOf2 ax ay (ax.dom i, ay.dom j) = some (i, j) := by simp [cellOf2, hcx, hcy]
+  obtain ⟨c, hsol, hv⟩ := evalPure2_val E hE ax ay nm f nbe _ v _ hc h
+  obtain ⟨i', rfl⟩ : ∃ i', i = i' + 1 := ⟨i - 1, by omega⟩
+  obtain ⟨j', rfl⟩ : ∃ j', j = j' + 1 := ⟨j - 1, by omega⟩
+  have hk := knot2 ax ay _ _ c hsol 0 0 (by norm_num) (by norm_num)
+  simp only [Nat.add_zero, Nat.zero_add] at hk
+  rw [hv, denorm2 E hE.powi]
+  simp only []
+  rw [← hax.xn_eq, ← hay.xn_eq, hk, d2_eq _ _ _ _ _ _ 1 1 (by norm_num) (by norm_num), hnm.unapply]
+
+/-- coefficients of `(m ∘ (t ↦ t/Δ⁻¹ + x₀) − data_min) · δ⁻¹` in the normalised coordinates -/
+def renorm2 (m : Nat → Nat → α) (ax ay : Axis α) (nm : Norm α) (a b : Nat) : α :=
+  if a = 0 then
+    (if b = 0 then (m 0 0 + m 0 1 * ay.xmin + m 1 0 * ax.xmin + m 1 1 * ax.xmin * ay.xmin - nm.dmin) * nm.deltaInv
+     else (m 0 1 + m 1 1 * ax.xmin) * nm.deltaInv / ay.dinv)
+  else (if b = 0 then (m 1 0 + m 1 1 * ay.xmin) * nm.deltaInv / ax.dinv else m 1 1 * nm.deltaInv / (ax.dinv * ay.dinv))
+
+theorem reproduces_multilinear_2d (E : Ext α) (hE : ExtOK E) (ax ay : Axis α) (hax : AxisOK ax) (hay : AxisOK ay)
+    (nm : Norm α) (hnm : NormOK nm) (f : α × α → α) (m : Nat → Nat → α) (hf : ∀ x y, f (x, y) = ml2 m x y)
+    (nbe : Bool) (p : α × α) (cell : Nat × Nat) (hc : cellOf2 ax ay p = some cell) (v : α)
+    (h : evalPure (spec2 E ax ay nm) (envOf f nm) nbe p = .val v) : v = f p := by
+  obtain ⟨hcx, hcy⟩ := cellOf2_some ax ay p cell hc
+  obtain ⟨i, j⟩ := cell
+  obtain ⟨hi1, hi2, _, _⟩ := cellOf_some ax p.1 i hcx
+  obtain ⟨hj1, hj2, _, _⟩ := cellOf_some ay p.2 j hcy
+  obtain ⟨c, hsol, hv⟩ := evalPure2_val E hE ax ay nm f nbe _ v _ hc h
+  obtain ⟨i', rfl⟩ : ∃ i', i = i' + 1 := ⟨i - 1, by omega⟩
+  obtain ⟨j', rfl⟩ : ∃ j', j = j' + 1 := ⟨j - 1, by omega⟩
+  have hdx := hax.dinv_ne
+  have hdy := hay.dinv_ne
+  have hdl := hnm.delta_ne
+  have hcand := multilinear_solves2 ax ay i' j' (renorm2 m ax ay nm)
+    (hax.xn_ne i' (i' + 2) (by omega) (by omega)) (hax.xn_ne (i' + 1) (i' + 3) (by omega) (by omega))
+    (hay.xn_ne j' (j' + 2) (by omega) (by omega)) (hay.xn_ne (j' + 1) (j' + 3) (by omega) (by omega))
+  have hcand' := isSol2_congr ax ay (i' + 1, j' + 1) _ (d2 ax ay nm f (i' + 1, j' + 1)) _ (by
+    intro a b ha hb
+    rw [d2_eq _ _ _ _ _ _ a b ha hb, hf, hax.dom_eq, hay.dom_eq]
+    simp only [Norm.apply, ml2, renorm2]
+    simp
+    field_simp
+    ring) hcand
+  have hu := unique2 ax ay (i' + 1, j' + 1) _ c _
+    (hax.xn_ne (i' + 1) (i' + 2) (by omega) (by omega)).symm
+    (hay.xn_ne (j' + 1) (j' + 2) (by omega) (by omega)).symm hsol hcand'
+  obtain ⟨px, py⟩ := p
+  rw [hv, denorm2 E hE.powi, poly2_congr _ _ _ hu, poly2_embed, hf]
+  simp only [ml2, renorm2, hnm.inv]
+  simp
+  field_simp
+  ring
+
+theorem normalisation_cancels_2d (E : Ext α) (hE : ExtOK E) (ax ay : Axis α) (hax : AxisOK ax) (hay : AxisOK ay)
+    (nm nm' : Norm α) (hnm : NormOK nm) (hnm' : NormOK nm') (f : α × α → α) (nbe : Bool) (p : α × α) (v v' : α)
+    (h : evalPure (spec2 E ax ay nm) (envOf f nm) nbe p = .val v)
+    (h' : evalPure (spec2 E ax ay nm') (envOf f nm') nbe p = .val v') : v = v' := by
+  cases hc : cellOf2 ax ay p with
+  | none =>
+    have e1 : (spec2 E ax ay nm).locate p = none := hc
+    have e2 : (spec2 E ax ay nm').locate p = none := hc
+    simp only [evalPure, e1, e2] at h h'
+    cases nbe <;> simp [envOf] at h h'
+    rw [← h, ← h']
+  | some cell =>
+    obtain ⟨hcx, hcy⟩ := cellOf2_some ax ay p cell hc
+    obtain ⟨i, j⟩ := cell
+    obtain ⟨hi1, hi2, _, _⟩ := cellOf_some ax p.1 i hcx
+    obtain ⟨hj1, hj2, _, _⟩ := cellOf_some ay p.2 j hcy
+    obtain ⟨c, hsol, hv⟩ := evalPure2_val E hE ax ay nm f nbe _ v _ hc h
+    obtain ⟨c', hsol', hv'⟩ := evalPure2_val E hE ax ay nm' f nbe _ v' _ hc h'
+    obtain ⟨i', rfl⟩ : ∃ i', i = i' + 1 := ⟨i - 1, by omega⟩
+    obtain ⟨j', rfl⟩ : ∃ j', j = j' + 1 := ⟨j - 1, by omega⟩
+    have raw := norm_solves2 ax ay (i' + 1, j' + 1) _ c (-(nm.dmin * nm.deltaInv)) nm.delta hsol
+    have raw' := norm_solves2 ax ay (i' + 1, j' + 1) _ c' (-(nm'.dmin * nm'.deltaInv)) nm'.delta hsol'
+    have hd := hnm.delta_ne
+    have hd' := hnm'.delta_ne
+    have e1 := isSol2_congr ax ay (i' + 1, j' + 1) _ (fun a b => f (ax.dom (i' + a), ay.dom (j' + b))) _ (by
+      intro a b ha hb
+      simp only [d2_eq _ _ _ _ _ _ a b ha hb, Norm.apply, hnm.inv]
+      field_simp; ring) raw
+    have e2 := isSol2_congr ax ay (i' + 1, j' + 1) _ (fun a b => f (ax.dom (i' + a), ay.dom (j' + b))) _ (by
+      intro a b ha hb
+      simp only [d2_eq _ _ _ _ _ _ a b ha hb, Norm.apply, hnm'.inv]
+      field_simp; ring) raw'
+    have hu := unique2 ax ay (i' + 1, j' + 1) _ _ _
+      (hax.xn_ne (i' + 1) (i' + 2) (by omega) (by omega)).symm
+      (hay.xn_ne (j' + 1) (j' + 2) (by omega) (by omega)).symm e1 e2
+    have key := poly2_congr _ _ ((p.1 - ax.xmin) * ax.dinv, (p.2 - ay.xmin) * ay.dinv) hu
+    rw [poly2_lin_e0, poly2_lin_e0] at key
+    rw [hv, hv', denorm2 E hE.powi, denorm2 E hE.powi]
+    simp only [hnm.inv, hnm'.inv] at key
+    field_simp at key
+    linear_combination key
+
+end TwoD
+
+/-! ## Caching3D -/
+section ThreeD
+variable {α : Type} [Field α] [LinearOrder α] [IsStrictOrderedRing α]
+
+theorem interpolates_nodes_3d (E : Ext α) (hE : ExtOK E) (ax ay az : Axis α) (hax : AxisOK ax)
+    (hay : AxisOK ay) (haz : AxisOK az) (nm : Norm α) (hnm : NormOK nm)
+    (f : α × α × α → α) (nbe : Bool) (i j k : Nat)
+    (hi1 : 1 ≤ i) (hi2 : i + 2 ≤ ax.top) (hj1 : 1 ≤ j) (hj2 : j + 2 ≤ ay.top) (hk1 : 1 ≤ k) (hk2 : k + 2 ≤ az.top)
+    (v : α) (h : evalPure (spec3 E ax ay az nm) (envOf f nm) nbe (ax.dom i, ay.dom j, az.dom k) = .val v) :
+    v = f (ax.dom i, ay.dom j, az.dom k) := by
+  have hcx : cellOf ax (ax.dom i) = some i :=
+    cellOf_of_bracket ax hax.sorted _ i hi1 hi2 le_rfl (hax.sorted i (i + 1) (by omega) (by omega))
+  have hcy : cellOf ay (ay.dom j) = some j :=
+    cellOf_of_bracket ay hay.sorted _ j hj1 hj2 le_rfl (hay.sorted j (j + 1) (by omega) (by omega))
+  have hcz : cellOf az (az.dom k) = some k :=
+    cellOf_of_bracket az haz.sorted _ k hk1 hk2 le_rfl (haz.sorted k (k + 1) (by omega) (by omega))
+  have hc : cellOf3 ax ay az (ax.dom i, ay.dom j, az.dom k) = some (i, j, k) := by simp [cellOf3, hcx, hcy, hcz]
+  obtain ⟨c, hsol, hv⟩ := evalPure3_val E hE ax ay az nm f nbe _ v _ hc h
+  obtain ⟨i', rfl⟩ : ∃ i', i = i' + 1 := ⟨i - 1, by omega⟩
+  obtain ⟨j', rfl⟩ : ∃ j', j = j' + 1 := ⟨j - 1, by omega⟩
+  obtain ⟨k', rfl⟩ : ∃ k', k = k' + 1 := ⟨k - 1, by omega⟩
+  have hk := knot3 ax ay az _ _ c hsol 0 0 0 (by norm_num) (by norm_num) (by norm_num)
+  simp only [Nat.add_zero, Nat.zero_add] at hk
+  rw [hv, denorm3 E hE.powi]
+  simp only []
+  rw [← hax.xn_eq, ← hay.xn_eq, ← haz.xn_eq, hk,
+    d3_eq _ _ _ _ _ _ _ _ 1 1 1 (by norm_num) (by norm_num) (by norm_num), hnm.unapply]
+
+/-- coefficients of `(m ∘ (t ↦ t/Δ⁻¹ + x₀) − data_min) · δ⁻¹` in the normalised coordinates -/
+def renorm3 (m : Nat → Nat → Nat → α) (ax ay az : Axis α) (nm : Norm α) (a b c : Nat) : α :=
+  let ox := ax.xmin
+  let oy := ay.xmin
+  let oz := az.xmin
+  let s := nm.deltaInv
+  if a = 0 then
+    (if b = 0 then
+      (if c = 0 then (ml3 m ox oy oz - nm.dmin) * s
+       else (m 0 0 1 + m 0 1 1 * oy + m 1 0 1 * ox + m 1 1 1 * ox * oy) * s / az.dinv)
+     else
+      (if c = 0 then (m 0 1 0 + m 0 1 1 * oz + m 1 1 0 * ox + m 1 1 1 * ox * oz) * s / ay.dinv
+       else (m 0 1 1 + m 1 1 1 * ox) * s / (ay.dinv * az.dinv)))
+  else
+    (if b = 0 then
+      (if c = 0 then (m 1 0 0 + m 1 0 1 * oz + m 1 1 0 * oy + m 1 1 1 * oy * oz) * s / ax.dinv
+       else (m 1 0 1 + m 1 1 1 * oy) * s / (ax.dinv * az.dinv))
+     else
+      (if c = 0 then (m 1 1 0 + m 1 1 1 * oz) * s / (ax.dinv * ay.dinv)
+       else m 1 1 1 * s / (ax.dinv * ay.dinv * az.dinv)))
+
+theorem reproduces_multilinear_3d (E : Ext α) (hE : ExtOK E) (ax ay az : Axis α) (hax : AxisOK ax)
+    (hay : AxisOK ay) (haz : AxisOK az) (nm : Norm α) (hnm : NormOK nm)
+    (f : α × α × α → α) (m : Nat → Nat → Nat → α) (hf : ∀ x y z, f (x, y, z) = ml3 m x y z)
+    (nbe : Bool) (p : α × α × α) (cell : Nat × Nat × Nat) (hc : cellOf3 ax ay az p = some cell) (v : α)
+    (h : evalPure (spec3 E ax ay az nm) (envOf f nm) nbe p = .val v) : v = f p := by
+  obtain ⟨hcx, hcy, hcz⟩ := cellOf3_some ax ay az p cell hc
+  obtain ⟨i, j, k⟩ := cell
+  obtain ⟨hi1, hi2, _, _⟩ := cellOf_some ax p.1 i hcx
+  obtain ⟨hj1, hj2, _, _⟩ := cellOf_some ay p.2.1 j hcy
+  obtain ⟨hk1, hk2, _, _⟩ := cellOf_some az p.2.2 k hcz
+  obtain ⟨c, hsol, hv⟩ := evalPure3_val E hE ax ay az nm f nbe _ v _ hc h
+  obtain ⟨i', rfl⟩ : ∃ i', i = i' + 1 := ⟨i - 1, by omega⟩
+  obtain ⟨j', rfl⟩ : ∃ j', j = j' + 1 := ⟨j - 1, by omega⟩
+  obtain ⟨k', rfl⟩ : ∃ k', k = k' + 1 := ⟨k - 1, by omega⟩
+  have hdx := hax.dinv_ne
+  have hdy := hay.dinv_ne
+  have hdz := haz.dinv_ne
+  have hdl := hnm.delta_ne
+  have hcand := multilinear_solves3 ax ay az i' j' k' (renorm3 m ax ay az nm)
+    (hax.xn_ne i' (i' + 2) (by omega) (by omega)) (hax.xn_ne (i' + 1) (i' + 3) (by omega) (by omega))
+    (hay.xn_ne j' (j' + 2) (by omega) (by omega)) (hay.xn_ne (j' + 1) (j' + 3) (by omega) (by omega))
+    (haz.xn_ne k' (k' + 2) (by omega) (by omega)) (haz.xn_ne (k' + 1) (k' + 3) (by omega) (by omega))
+  have hcand' := isSol3_congr ax ay az (i' + 1, j' + 1, k' + 1) _ (d3 ax ay az nm f (i' + 1, j' + 1, k' + 1)) _ (by
+    intro a b cc ha hb hcc
+    rw [d3_eq _ _ _ _ _ _ _ _ a b cc ha hb hcc, hf, hax.dom_eq, hay.dom_eq, haz.dom_eq]
+    simp only [Norm.apply, ml3, renorm3]
+    simp
+    field_simp
+    ring) hcand
+  have hu := unique3 ax ay az (i' + 1, j' + 1, k' + 1) _ c _
+    (hax.xn_ne (i' + 1) (i' + 2) (by omega) (by omega)).symm
+    (hay.xn_ne (j' + 1) (j' + 2) (by omega) (by omega)).symm
+    (haz.xn_ne (k' + 1) (k' + 2) (by omega) (by omega)).symm hsol hcand'
+  obtain ⟨px, py, pz⟩ := p
+  rw [hv, denorm3 E hE.powi, poly3_congr _ _ _ hu, poly3_embed, hf]
+  simp only [ml3, renorm3, hnm.inv]
+  simp
+  field_simp
+  ring
+
+theorem normalisation_cancels_3d (E : Ext α) (hE : ExtOK E) (ax ay az : Axis α) (hax : AxisOK ax)
+    (hay : AxisOK ay) (haz : AxisOK az) (nm nm' : Norm α) (hnm : NormOK nm) (hnm' : NormOK nm')
+    (f : α × α × α → α) (nbe : Bool) (p : α × α × α) (v v' : α)
+    (h : evalPure (spec3 E ax ay az nm) (envOf f nm) nbe p = .val v)
+    (h' : evalPure (spec3 E ax ay az nm') (envOf f nm') nbe p = .val v') : v = v' := by
+  cases hc : cellOf3 ax ay az p with
+  | none =>
+    have e1 : (spec3 E ax ay az nm).locate p = none := hc
+    have e2 : (spec3 E ax ay az nm').locate p = none := hc
+    simp only [evalPure, e1, e2] at h h'
+    cases nbe <;> simp [envOf] at h h'
+    rw [← h, ← h']
+  | some cell =>
+    obtain ⟨hcx, hcy, hcz⟩ := cellOf3_some ax ay az p cell hc
+    obtain ⟨i, j, k⟩ := cell
+    obtain ⟨hi1, hi2, _, _⟩ := cellOf_some ax p.1 i hcx
+    obtain ⟨hj1, hj2, _, _⟩ := cellOf_some ay p.2.1 j hcy
+    obtain ⟨hk1, hk2, _, _⟩ := cellOf_some az p.2.2 k hcz
+    obtain ⟨c, hsol, hv⟩ := evalPure3_val E hE ax ay az nm f nbe _ v _ hc h
+    obtain ⟨c', hsol', hv'⟩ := evalPure3_val E hE ax ay az nm' f nbe _ v' _ hc h'
+    obtain ⟨i', rfl⟩ : ∃ i', i = i' + 1 := ⟨i - 1, by omega⟩
+    obtain ⟨j', rfl⟩ : ∃ j', j = j' + 1 := ⟨j - 1, by omega⟩
+    obtain ⟨k', rfl⟩ : ∃ k', k = k' + 1 := ⟨k - 1, by omega⟩
+    have raw := norm_solves3 ax ay az (i' + 1, j' + 1, k' + 1) _ c (-(nm.dmin * nm.deltaInv)) nm.delta hsol
+    have raw' := norm_solves3 ax ay az (i' + 1, j' + 1, k' + 1) _ c' (-(nm'.dmin * nm'.deltaInv)) nm'.delta hsol'
+    have hd := hnm.delta_ne
+    have hd' := hnm'.delta_ne
+    have e1 := isSol3_congr ax ay az (i' + 1, j' + 1, k' + 1) _
+      (fun a b cc => f (ax.dom (i' + a), ay.dom (j' + b), az.dom (k' + cc))) _ (by
+      intro a b cc ha hb hcc
+      simp only [d3_eq _ _ _ _ _ _ _ _ a b cc ha hb hcc, Norm.apply, hnm.inv]
+      field_simp; ring) raw
+    have e2 := isSol3_congr ax ay az (i' + 1, j' + 1, k' + 1) _
+      (fun a b cc => f (ax.dom (i' + a), ay.dom (j' + b), az.dom (k' + cc))) _ (by
+      intro a b cc ha hb hcc
+      simp only [d3_eq _ _ _ _ _ _ _ _ a b cc ha hb hcc, Norm.apply, hnm'.inv]
+      field_simp; ring) raw'
+    have hu := unique3 ax ay az (i' + 1, j' + 1, k' + 1) _ _ _
+      (hax.xn_ne (i' + 1) (i' + 2) (by omega) (by omega)).symm
+      (hay.xn_ne (j' + 1) (j' + 2) (by omega) (by omega)).symm
+      (haz.xn_ne (k' + 1) (k' + 2) (by omega) (by omega)).symm e1 e2
+    have key := poly3_congr _ _
+      ((p.1 - ax.xmin) * ax.dinv, (p.2.1 - ay.xmin) * ay.dinv, (p.2.2 - az.xmin) * az.dinv) hu
+    rw [poly3_lin_e0, poly3_lin_e0] at key
+    rw [hv, hv', denorm3 E hE.powi, denorm3 E hE.powi]
+    simp only [hnm.inv, hnm'.inv] at key
+    field_simp at key
+    linear_combination key
+
+end ThreeD
+
+/-! ## coordinate denormalisation: the stored polynomial is the normalised one composed with the normalisation -/
+section Denorm
+variable {α : Type} [Field α] [LinearOrder α] [IsStrictOrderedRing α]
+
+theorem denormalisation_1d (E : Ext α) (hp : ∀ x n, E.powi x n = x ^ n) (ax : Axis α) (nm : Norm α) (c : Nat → α) (p : α) :
+    poly1 (finish1 E ax nm c) p = nm.delta * poly1 c ((p - ax.xmin) * ax.dinv) + nm.dmin := denorm1 E hp ax nm c p
+
+theorem denormalisation_2d (E : Ext α) (hp : ∀ x n, E.powi x n = x ^ n) (ax ay : Axis α) (nm : Norm α) (c : Nat → α)
+    (p : α × α) :
+    poly2 (finish2 E ax ay nm c) p =
+      nm.delta * poly2 c ((p.1 - ax.xmin) * ax.dinv, (p.2 - ay.xmin) * ay.dinv) + nm.dmin := denorm2 E hp ax ay nm c p
+
+theorem denormalisation_3d (E : Ext α) (hp : ∀ x n, E.powi x n = x ^ n) (ax ay az : Axis α) (nm : Norm α)
+    (c : Nat → α) (p : α × α × α) :
+    poly3 (finish3 E ax ay az nm c) p =
+      nm.delta * poly3 c ((p.1 - ax.xmin) * ax.dinv, (p.2.1 - ay.xmin) * ay.dinv, (p.2.2 - az.xmin) * az.dinv)
+        + nm.dmin := denorm3 E hp ax ay az nm c p
+
+end Denorm
+
+/-! ## the hypotheses are satisfiable (non-vacuity) -/
+section NonVacuous
+open Classical
+
+/-- an ideal solver: returns a solution whenever one exists -/
+noncomputable def idealExt (α : Type) [Field α] [LinearOrder α] [IsStrictOrderedRing α] : Ext α where
+  solve := fun A b => if h : ∃ c, Solves A b c then some (Classical.choose h) else none
+  powi := fun x n => x ^ n
+
+theorem ideal_solve_ok {α : Type} [Field α] [LinearOrder α] [IsStrictOrderedRing α] : ExtOK (idealExt α) := by
+  refine ⟨fun _ _ => rfl, ?_⟩
+  intro A b c h
+  simp only [idealExt] at h
+  split at h
+  · rename_i hex
+    cases h
+    exact Classical.choose_spec hex
+  · cases h
+
+/-- … and on every 1-D cell with distinct knots it does return -/
+theorem ideal_solve_total_1d {α : Type} [Field α] [LinearOrder α] [IsStrictOrderedRing α] (ax : Axis α) (i : Nat)
+    (d : Nat → α) (hne : ax.xn i ≠ ax.xn (i + 1)) :
+    ((idealExt α).solve (system1 ax i d).1 (system1 ax i d).2).isSome := by
+  have hex : ∃ c, Solves (system1 ax i d).1 (system1 ax i d).2 c :=
+    ⟨_, (solves_system1 ax i d _).mpr (hermite_solves ax i d hne)⟩
+  simp [idealExt, hex]
+
+/-- the constructor's guarantees hold for a concrete rational grid -/
+example : AxisOK (mkAxis (fun _ : ℚ => 3) 0 1 (1 / 3)) :=
+  mkAxis_ok _ _ _ _ (by norm_num) (by unfold EPS; norm_num)
+
+example : NormOK (mkNorm (some ((2 : ℚ), 5))) := mkNorm_ok _
+example : NormOK (mkNorm (some ((2 : ℚ), 2))) := mkNorm_ok _          -- equal bounds: data_delta falls back to 1
+example : NormOK (mkNorm (none : Option (ℚ × ℚ))) := mkNorm_ok _
+
+/-- `find_index` on a concrete array: all exits -/
+example : findIndex (fun i => (i : ℚ) * (i : ℚ)) 4 (5 : ℚ) 0 = 2 := by norm_num [findIndex, bisect]
+example : findIndex (fun i => (i : ℚ) * (i : ℚ)) 4 (0 : ℚ) 0 = 0 := by norm_num [findIndex, bisect]
+example : findIndex (fun i => (i : ℚ) * (i : ℚ)) 4 (16 : ℚ) 0 = 3 := by norm_num [findIndex, bisect]
+example : findIndex (fun i => (i : ℚ) * (i : ℚ)) 4 (-1 : ℚ) 0 = -2 := by norm_num [findIndex, bisect]
+example : findIndex (fun i => (i : ℚ) * (i : ℚ)) 4 (17 : ℚ) 0 = 5 := by norm_num [findIndex, bisect]
+example : findIndex (fun i => (i : ℚ) * (i : ℚ)) 4 (-1 : ℚ) 2 = -1 := by norm_num [findIndex, bisect]
+example : findIndex (fun i => (i : ℚ) * (i : ℚ)) 4 (17 : ℚ) 2 = 4 := by norm_num [findIndex, bisect]
+
+end NonVacuous
 
 end Cherab.Props.C14
